@@ -62,6 +62,16 @@ for kind in ("mem", "disk"):
              {"do": "spawn", "thread": "C", "line": closer}, {"do": "sleep", "ms": 60},
              {"do": "release", "thread": "F"}, {"do": "join", "thread": "F"}, {"do": "join", "thread": "C"},
              {"do": "sleep", "ms": 100}] + tail + [{"do": "run", "line": "shutdownstate"}], kind, acts)
+    # nothing races here: a live feed on a collection, the collection dropped, then the store shut down - the shutdown walks the same feed
+    # list the drop has already been through
+    for closer in ("cadh h0", "hclose h0"):
+        cl = "closestore" if closer == "cadh h0" else close_h0
+        add("%s/feed-then-DropDataStore-then-%s" % (kind, closer.split(" ")[0]),
+            [{"do": "run", "line": "feed f0 c1 bf=none"}, {"do": "run", "line": "feed f1 c0 bf=none"},
+             {"do": "run", "line": 'set c1 k1 exp=0 raw=0 v={"w":1}'}, {"do": "run", "line": "dropcoll c1 via=h0"},
+             {"do": "run", "line": SET}, {"do": "spawn", "thread": "C", "line": closer}, {"do": "join", "thread": "C"},
+             {"do": "sleep", "ms": 100}] + ([{"do": "run", "line": "cadh h0"}] if (kind == "mem" and closer == "hclose h0") else []) +
+            [{"do": "run", "line": "shutdownstate"}], kind, ["register", "register", "txn", "post", "drop", "txn", "post", cl])
     # feed delivery in progress
     add("%s/feed-delivering-vs-CloseAndDelete" % kind,
         [{"do": "run", "line": "feed f0 c0 bf=none"}, {"do": "claim", "thread": "D", "point": "feed.deliver"},
